@@ -386,6 +386,13 @@ MUTANTS = {
     "rev_fix_thresholder_float32_scores": {
         "props": ["C04", "C10"], "what": "revert fix 2e32ab5: probability vector keeps the dtype of the scores (float32 scores raise in predict)",
         "edits": [(IT, "        positive_probs = 0.0 * base_predictions_vector.astype(np.float64)", "        positive_probs = 0.0 * base_predictions_vector")]},
+    "rev_fix_error_rate_gamma_dtype": {
+        "props": ["C06"], "what": "revert fix cd8082c (ErrorRate): labels minus predictions in their own dtype (uint8 wraps)",
+        "edits": [(ER, "        pred = np.squeeze(np.asarray(predictor(self.X), dtype=np.float64))\n        signed_errors = self.tags[_LABEL].astype(np.float64) - pred\n",
+                   "        pred = np.squeeze(np.asarray(predictor(self.X)))\n        signed_errors = self.tags[_LABEL] - pred\n")]},
+    "rev_fix_loss_gamma_dtype": {
+        "props": ["C06"], "what": "revert fix cd8082c (loss moments): the loss is evaluated on labels / predictions in their own dtype",
+        "edits": [(BGL, "            self.tags[_LABEL].astype(np.float64), self.tags[_PREDICTION].astype(np.float64)\n", "            self.tags[_LABEL], self.tags[_PREDICTION]\n")]},
     "rev_fix_error_rate_parity_uint8": {
         "props": ["C06"], "what": "revert fix 1283ce5: ErrorRateParity utilities built in the labels' own dtype",
         "edits": [(UP, "        utilities = np.vstack([y_float, 1 - y_float]).T", "        utilities = np.vstack([y_train, 1 - y_train]).T")]},
